@@ -446,6 +446,9 @@ def check_channels(run, cx, cfg):
 
 
 def run(run, tier, loadcfg):
+    if tier == 'thorough':
+        import witness
+        witness.check(run, 'c03', 2)
     run.rule_text = 'one instance per (impl or function x rule x configuration); floors: 14 Sample impls, 15 Frame impls, 30 map/zip_map bodies'
     run.explanation = __doc__
     run.assumptions = ['core::array::from_fn calls its closure for 0..N in order; core array map is element-wise', 'numeric content of conversions is C01/C02']
